@@ -241,6 +241,9 @@ func (db *DB) writeLocked(batch, ourBatch *Batch, merge, sync bool) error {
 	verifEvent("journal", batch, nil, len(batches))
 	if err := db.writeJournal(batches, seq, sync); err != nil {
 		verifEvent("journal-failed", batch, nil, len(batches))
+		// The record may have reached the journal file, its sequence
+		// numbers must not be reused by a subsequent write.
+		db.addSeq(uint64(batchesLen(batches)))
 		db.unlockWrite(overflow, merged, err)
 		return err
 	}
